@@ -149,6 +149,9 @@ OuterLoop:
 					break ArgLoop
 				case 'p':
 					// Pointer address, new in Lua 5.4
+					if len(args) <= j {
+						return "", errNotEnoughValues
+					}
 					switch v := values[j]; v.Type() {
 					case rt.BoolType, rt.FloatType, rt.IntType, rt.NilType:
 						outFormat[i] = 's'
@@ -199,6 +202,10 @@ OuterLoop:
 					// Unrecognised verbs
 					return "", errors.New("invalid format string")
 				}
+			}
+			if i >= len(format) {
+				// The format string ends in the middle of a conversion
+				return "", fmt.Errorf("invalid conversion '%s' to 'format'", format[start-1:])
 			}
 			args[j] = arg
 			j++
